@@ -82,6 +82,16 @@ def same_values(a, b):
     return bool(np.array_equal(a, b))
 
 
+def show_operand(o):
+    from dask._expr import Expr
+
+    if isinstance(o, Expr):
+        return f"<{type(o).__name__} {o._name}>"
+    if isinstance(o, np.ndarray):
+        return f"<ndarray shape={o.shape} dtype={o.dtype} head={o.ravel()[:8].tolist()}>"
+    return repr(o)[:120]
+
+
 def brief(v, limit=40):
     a = np.asarray(v)
     return {"shape": list(a.shape), "dtype": str(a.dtype), "head": a.ravel()[:limit].tolist()}
@@ -160,7 +170,14 @@ class Registry:
     def isolated(self, fn):
         """Run fn() with EMPTY singleton registries and lowering cache, then restore them exactly."""
         caches = self._caches()
-        saved = [(d, dict(d)) for d in caches]
+        saved = []
+        for d in caches:
+            snap = {}
+            for k in list(d.keys()):  # weak values may die while we copy: never index, always .get
+                v = d.get(k)
+                if v is not None:
+                    snap[k] = v
+            saved.append((d, snap))
         keep_pending = self.pending
         self.pending = []
         try:
@@ -245,6 +262,7 @@ class Registry:
         ka, kb = a.skey[0], b.skey[0]
         self.pair_classes[tuple(sorted((ka, kb)))] += 1
         self.ctx.count(("registry-pair",) + tuple(sorted((ka, kb))))
+        self.ctx.traces += 1
         if a.cheap is None or b.cheap is None:
             self.stats["pair-uncomputable-meta"] += 1
             return None
@@ -267,7 +285,7 @@ class Registry:
 
     def describe(self, name, a, b, what, va=None, vb=None):
         def d(e, v):
-            out = {"class": e.skey[0], "created_during": e.where, "content": e.cheap, "operands": [repr(k)[:90] for k in e.skey[1]]}
+            out = {"class": e.skey[0], "created_during": e.where, "content": e.cheap, "operands": [show_operand(o) for o in e.node.operands]}
             try:
                 out["tree"] = "\n".join(e.node._tree_repr_lines())[:600]
             except Exception:
@@ -511,6 +529,7 @@ def run(ctx, replay=None):
         "C06: `tokenize` never collides (SHA/MD5-style hashing is not modelled); the translator's AST reading of /repo "
         "(harness/translate/names.py), validated every run by the perturbation test and the registry",
     ]
+    ctx._run_t0 = ctx.elapsed()
     if replay is not None:
         return run_replay(ctx, replay)
 
@@ -530,6 +549,11 @@ def run(ctx, replay=None):
         reg.uninstall()
     ctx.notes["registry"] = dict(reg.stats)
     ctx.notes["registry_same_name_pairs_by_class"] = {"+".join(k): v for k, v in reg.pair_classes.most_common(25)}
+
+
+def since(ctx):
+    """seconds since run() started (the Lean build before it does not eat the search budget)"""
+    return ctx.elapsed() - getattr(ctx, "_run_t0", 0.0)
 
 
 def report_conflict(ctx, c, history_progs):
@@ -573,12 +597,13 @@ def history(ctx, reg, nprog):
             r = ref[v]
             if tuple(x.shape) != r.shape and not any(isinstance(s, float) for s in x.shape):
                 ctx.notes["advertised_shape_mismatch"] = ctx.notes.get("advertised_shape_mismatch", 0) + 1
-        if twin is not None:
-            compare_twins(ctx, twin, rec)
         vs = list(env)
         for v in rng.sample(vs, min(len(vs), 2)) + [vs[-1]]:
             todo.append(("compute", rec["id"], v))
-        if len(built) > 1 and rng.random() < 0.5:
+        if twin is not None:
+            # programs sharing sources / subtrees: their graphs share keys
+            todo.append(("merge", rec["id"], twin["id"]))
+        elif len(built) > 1 and rng.random() < 0.3:
             todo.append(("merge", rec["id"], rng.randrange(len(built) - 1)))
         if rng.random() < 0.15:
             todo.append(("persist", rec["id"], vs[-1]))
@@ -610,7 +635,7 @@ def history(ctx, reg, nprog):
             persist_family(ctx, reg, rec, v)
 
     # schedule: sources of programs are shared on purpose (same shape/chunks/data => same from_array name)
-    while len(built) < nprog and ctx.elapsed() < ctx.scale(45, 500):
+    while len(built) < nprog and since(ctx) < ctx.scale(40, 420):
         r = rng.random()
         if not built or r < 0.40:
             prog, _g = programs.gen_program(rng, depth=rng.randint(1, 6), **GEN)
@@ -619,9 +644,10 @@ def history(ctx, reg, nprog):
             build(prog, "fresh")
         elif r < 0.52:
             base = rng.choice(built)
-            build(copy.deepcopy(base["prog"]), "rebuilt", twin=None)
+            rec = build(copy.deepcopy(base["prog"]), "rebuilt", twin=base)
             ctx.count(("rebuilt",))
-            same_program_same_names(ctx, base, built[-1])
+            if rec is not None:
+                same_program_same_names(ctx, base, rec)
         elif r < 0.64:
             base = rng.choice(built)
             g = replay_gen(rng, base["prog"], **GEN)
@@ -629,14 +655,14 @@ def history(ctx, reg, nprog):
                 for _ in range(rng.randint(1, 3)):
                     g.step()
                 if len(g.prog) > len(base["prog"]):
-                    build(g.prog, "extends")
+                    build(g.prog, "extends", twin=base)
         else:
             base = rng.choice(built)
             m = mutate_one(rng, base["prog"])
             if m is not None:
                 cand, idx, what = m
                 ctx.count(("near-duplicate", what))
-                rec = build(cand, "near-duplicate", twin=None)
+                rec = build(cand, "near-duplicate", twin=base)
                 if rec is not None:
                     compare_twins(ctx, base, rec, idx, what)
         # interleave pending actions in random order
@@ -644,7 +670,7 @@ def history(ctx, reg, nprog):
             act(todo.pop(rng.randrange(len(todo))))
     rng.shuffle(todo)
     for a in todo:
-        if ctx.elapsed() > ctx.scale(50, 540):
+        if since(ctx) > ctx.scale(45, 480):
             ctx.notes["actions_dropped_for_time"] = ctx.notes.get("actions_dropped_for_time", 0) + 1
             continue
         act(a)
@@ -946,6 +972,7 @@ def perturb_node(ctx, reg, node, positions, rng, stats, tag):
             if raw is None or type(raw) is not cls:
                 continue
             stats["perturbed"] += 1
+            ctx.traces += 1
             ctx.count(("perturb", cls.__name__, pname))
             try:
                 same_name = raw._name == node._name
@@ -1069,8 +1096,7 @@ def targeted(ctx, reg):
         perturb_node(ctx, reg, node, pos, rng, stats, "targeted")
     reg.pending = []
     # 3. API-level pairs: the same call with ONE argument changed, both alive, both computed
-    if len(ctx.failures) == before:
-        api_pairs(ctx, reg, stats)
+    api_pairs(ctx, reg, stats)  # always: gives a user-level reproducer next to the node-level pair
     ctx.notes["targeted_search"] = (
         f"uncovered (class, operand) pairs {sorted(f'{c}.{p}' for c, p in pairs)[:12]}: perturbed {stats['perturbed']} nodes of those classes at "
         f"exactly those operands ({stats['name-unchanged']} kept their name), plus API-level near-duplicate calls; "
